@@ -12,6 +12,10 @@ class Worker:
 
     def start(self):
         self.kill()
+        os.makedirs(self.cwd, exist_ok=True)
+        keep = os.path.join(self.cwd, ".keep")
+        if not os.path.exists(keep):
+            open(keep, "w").close()
         # ulimit -v keeps a runaway allocation from taking the box down; -s unlimited is NOT set:
         # the default 8 MiB main-thread stack is what users get.
         cmd = f"ulimit -v {self.mem_gb * 1024 * 1024}; exec {self.binary} verif serve"
